@@ -106,4 +106,18 @@ let () =
       flag (res_tok (fun b -> if b then "1" else "0")
         (verify_round (hc_of tbl) grp (z h) (stack_of s) (stack_of s2) (b1 cyc) (b1 bit) (z com) (sec_of resp)), out)
     | _ -> failwith "arity");
+  (* shuffle of known content: argument  c_d/c_Delta/c_a/f,..,f/z/fD,..,fD/zD *)
+  let msg_tok t = String.concat "/" [hz t.k_cd; hz t.k_cDelta; hz t.k_ca; cat (List.map hz t.k_f); hz t.k_z;
+                                     (if t.k_fD = [] then "_" else cat (List.map hz t.k_fD)); hz t.k_zD] in
+  let msg_of s = match String.split_on_char '/' s with
+    | [a; b; c; f; zz; fd; zd] -> { k_cd = z a; k_cDelta = z b; k_ca = z c; k_f = List.map z (split ',' f); k_z = z zz;
+                                    k_fD = List.map z (split ',' fd); k_zD = z zd }
+    | _ -> failwith "skc message" in
+  register "skp" (fun toks -> missed := false; match pc toks with (c, [l; pi; r; m; raws; tbl; out]) ->
+      flag ((match skc_prove (oracle tbl) c (z l) (List.map (fun s -> nat_of_int (int_of_string s)) (split ',' pi)) (z r)
+                     (List.map z (split ',' m)) (List.map z (split ',' raws)) with None -> "none" | Some t -> msg_tok t), out)
+    | _ -> failwith "arity");
+  register "skv" (fun toks -> missed := false; match pc toks with (c, [l; cc; m; good; msg; opt; alpha; tbl; out]) ->
+      flag (vd (skc_verify (oracle tbl) c (z l) (z cc) (List.map z (split ',' m)) (b1 good) (msg_of msg) (b1 opt) (z alpha)), out)
+    | _ -> failwith "arity");
   main ()
